@@ -38,6 +38,28 @@ def viewTok : View → String
   | .truncated v => s!"T{v}"
   | .error c => s!"E{c}"
 
+/-- a thread that fetched version `ver` itself sent ITS status line and headers before the body;
+    the body it streams afterwards is whatever the re-opened path holds (`.sendBody`): when that is
+    another version the client sees body bytes of version v under the headers of version `ver` -/
+def torn (t : Thread) : Option (Nat × Nat) :=
+  match t.view with
+  | .complete v _ => if t.ver ≠ 0 ∧ t.ver ≠ v then some (v, t.ver) else none
+  | .truncated v => if t.ver ≠ 0 ∧ t.ver ≠ v then some (v, t.ver) else none
+  | _ => none
+
+/-- length of the harness origin's body of version v (harness/streams/sched.go schedBody) -/
+def bodyLen (v : Nat) : Nat := 33 + (toString v).length + (9 - v % 10)
+
+/-- the token of a thread's client view. Torn case: the client holds the status line and
+    `Content-Length: bodyLen e` of ITS version e; net/http refuses a body that exceeds the declared
+    length (nothing more is sent: the view stays "headers only"), a shorter or equal one goes out -/
+def threadViewTok (t : Thread) : String :=
+  match torn t with
+  | some (b, e) =>
+    let avail := match t.view with | .truncated _ => bodyLen b / 2 | _ => bodyLen b
+    if avail > bodyLen e then s!"H{e}" else s!"M{b}/{e}"
+  | none => viewTok t.view
+
 /-- a woken waiter whose re-Get goes on to take the lock passes `grw.before-lock` on the way:
     two controller steps for one model step -/
 def doubleStep (s : Sys) (i : Nat) : Bool :=
@@ -104,12 +126,15 @@ def witnesses : List (Nat × List Nat × List String) := [
   (2, [0, 0], ["t0","t0","t0","t0","t1","t1","t0","t0","t0","nf"]),
   (3, [0, 0, 0], ["t0","t0","t0","t0","t0","t0","t0","nf","ex","t1","t1","t1","t0","t0","nf","t2","t2","t2"]),
   (2, [2, 0], ["t0","t0","t0","t1","t1","t0","t0","t0","t0","nf","t1","t0","t0","nf"]),
-  (2, [0, 0], ["t1","t0","t0","t0","t0","t0","t0","t0","nf","t1","t1","nf"]) ]
+  (2, [0, 0], ["t1","t0","t0","t0","t0","t0","t0","t0","nf","t1","t1","nf"]),
+  -- C07-b: t0 fills and releases, the entry expires, t1 refreshes it with the next origin version, then t0 streams its body
+  (2, [0, 0], ["t0","t0","t0","t0","t0","t0","t0","nf","ex","oc","t1","t1","t1","t1","t1","t1","t0"]) ]
 
 /-- known-finding witness streams: index into `witnesses` -/
 def witnessOf (stream : String) : Option Nat :=
   if stream = "kf.C12-a" then some 0 else if stream = "kf.C12-b" then some 1
-  else if stream = "kf.C13-a" then some 2 else if stream = "kf.C12-c" then some 3 else none
+  else if stream = "kf.C13-a" then some 2 else if stream = "kf.C12-c" then some 3
+  else if stream = "kf.C07-b" then some 4 else none
 
 /-- complete a schedule prefix deterministically (lowest enabled actor first) -/
 def complete : Nat → Sys → List String → List String
@@ -189,11 +214,12 @@ def hSched : Handler := fun impl => do
             | .notifier => "notifier.done"
             | _ => "ok"
           (s', ps ++ [p])) (s0, [])
-  let views := (List.range n).map fun i => viewTok (sEnd.threads i).view
+  let views := (List.range n).map fun i => threadViewTok (sEnd.threads i)
   let model := " ".intercalate (parks ++ ["|views"] ++ views ++ [toString sEnd.fetches, toString sEnd.maxInFlight])
   let cls := ",".intercalate (
     (if sEnd.liveRemovals > 0 then ["C12-a"] else []) ++ (if sEnd.staleReleases > 0 then ["C12-b"] else []) ++
     (if sEnd.lateWriters > 0 then ["C12-c"] else []) ++
+    (if (List.range n).any (fun i => (torn (sEnd.threads i)).isSome) then ["C07-b"] else []) ++
     (if faults.contains .readErr ∧ ((List.range n).any fun i => (faults.getD i Fault.none != Fault.readErr) &&
         (match (sEnd.threads i).view with | .truncated _ => true | _ => false)) then ["C13-a"] else []))
   -- oracles on the implementation's observation
@@ -218,6 +244,6 @@ def hSched : Handler := fun impl => do
   return { model := model, oracle := oracle, cls := if cls = "" then "-" else cls, label := label }
 
 def handlers : List (String × Handler) := [
-  ("sched", hSched), ("kf.C12-a", hSched), ("kf.C12-b", hSched), ("kf.C12-c", hSched), ("kf.C13-a", hSched) ]
+  ("sched", hSched), ("kf.C12-a", hSched), ("kf.C12-b", hSched), ("kf.C12-c", hSched), ("kf.C13-a", hSched), ("kf.C07-b", hSched) ]
 
 end H.Sched
